@@ -145,6 +145,9 @@ impl Prop for C19 {
     fn id(&self) -> &'static str {
         "C19"
     }
+    fn level(&self) -> &'static str {
+        "fault_enumeration"
+    }
     fn rule(&self) -> String {
         "Placed gridded libraries from gen/tetgen.rs: 1-6 cells forming a DAG in straight/reversed/shuffled listing order, stepped outlines (1-4 steps), 0-4 metals, named instances at absolute locations with all four reflection combinations, assignments and cuts at arbitrary track crossings, optional port-less abstracts. \
          Oracle 1: ProtoLibImporter::import(ProtoExporter::export(lib)) equals lib on library name and per cell (by name) outline steps, metals, ordered instances (name, target, loc, both reflections), assignments, cuts, abstract outline; the exported message lists dependencies first. \
